@@ -13,7 +13,7 @@ import os
 
 import numpy as np
 
-from vlib import gen
+from vlib import env, gen
 
 PROPERTY = "C11"
 RULE = ("case = (engine, molecules, molecule-id subset, run length N, seed) with a shard of cadence tuples "
@@ -34,7 +34,9 @@ ASSUMPTIONS = [
 REQUIRED_MONITORS = ["h5_streams_checked", "h5_rows_compared", "xyz_frames_checked", "thermo_lines_checked",
                      "checkpoint_events_checked", "absent_streams_checked", "resumed_runs_checked"]
 CASE_TIMEOUT = 900.0
-BUDGET_S = {"quick": 200, "thorough": 1700}
+# budgets are sized for 16 workers; with fewer workers (VERIF_NCPU) the same work needs proportionally longer
+_SCALE = max(1.0, 16.0 / max(1, env.NCPU))
+BUDGET_S = {"quick": 200 * _SCALE, "thorough": 1700 * _SCALE}
 MIN_NONTRIVIAL = 4
 
 STREAMS = ("data", "coordinates", "velocities", "forces", "xyz", "nonadiabatic", "print", "checkpoint")
